@@ -1,7 +1,167 @@
-(* C17 -- stub, replaced below *)
-From Coq Require Import List Bool.
+(* C17 -- Record transforms are invertible and compose as documented.
+
+   Statements about the hand model Model/CData.v of data_algebra/cdata.py (RecordSpecification, RecordMap) and of the Pandas
+   realisation of the two record conversions (pandas_base.py blocks_to_rowrecs / rowrecs_to_blocks), tied to the code by the
+   correspondence check of harness/props/C17.py on every run.  Everything is unbounded: any number of record keys, control
+   keys, control rows, value columns and data rows.
+
+   tbl_eqv t1 t2 (Model/CData.v): the same column names and the same rows, both as multisets (row order and column order
+   ignored; this is data_algebra.test_util.equivalent_frames without the float tolerance).  select_cols cs t: the columns cs
+   of t (a transform ignores the other columns of its input).
+
+   Hypotheses, all boolean:  strict_spec S      S is accepted by RecordSpecification(..., strict=True), has 2+ control rows, and
+                                                its record keys are distinct names that are not control-table columns
+                                                (spec_extra: NOT checked by the constructor; the real transform raises then)
+                             conforming_rows S t   t has the row columns of S; its record-key cells are non-null (and in lowest
+                                                terms) and no key tuple repeats
+                             complete_blocks S t   t is keyed by record keys + control keys, every control key of t is in the
+                                                control table, every record has a row for every control-table key
+                             same_records A B   A and B have the same record keys and value names (as sets)
+
+   NOT proved here (partial):
+     * "Pandas and Polars agree": polars_model.py is not modelled; covered by the differential oracle of the harness only.
+     * composition: it is proved that a map with the first map's input side and an output side with the second map's layout
+       (composite_ok) IS sequential application (the C17_compose_sound_partial theorems); that compose() returns such a map is shown on
+       instances only (Examples below, by computation) and sampled by the correspondence check, not proved for all maps.
+       On the unchanged tree compose() passes value_suffix " value" and the statement is FALSE for composites that take or
+       return row records: C17_compose_refuted_rows_in / _rows_out (known finding C17-compose-leaks-example-value-suffix).
+       For a first map that drops value names it is false whatever the suffix: C17_compose_refuted_lossy. *)
+From Coq Require Import List Bool ZArith QArith String Permutation.
 Import ListNotations.
-From DA Require Import Base.PyRT Base.Val Model.CData.
-Theorem C17_stub : forall s : recspec, row_columns s = rs_keys s ++ content_keys s.
-Proof. exact (fun s => eq_refl). Qed.
-Print Assumptions C17_stub.
+From DA Require Import Base.PyRT Base.Val Model.CData Proofs.CDataP4 Proofs.CDataP5 Proofs.CDataP6 Proofs.CDataP7 Proofs.CDataEx.
+
+(* rows -> blocks -> rows returns the original table (its row columns) *)
+Theorem C17_inverse_roundtrip_rows : forall S t, strict_spec S = true -> conforming_rows S t = true ->
+  exists b x, rowrecs_to_blocks S t = Ok b /\ blocks_to_rowrecs S b = Ok x /\ tbl_eqv x (select_cols (row_columns S) t).
+Proof. exact roundtrip_rows. Qed.
+Print Assumptions C17_inverse_roundtrip_rows.
+
+(* blocks -> rows -> blocks returns the original table (its block columns); the intermediate row table is keyed *)
+Theorem C17_inverse_roundtrip_blocks : forall S t, strict_spec S = true -> complete_blocks S t = true ->
+  exists x b, blocks_to_rowrecs S t = Ok x /\ Permutation (cols x) (row_columns S) /\ keyed_by (rs_keys S) x = true /\
+              rowrecs_to_blocks S x = Ok b /\ tbl_eqv b (select_cols (block_columns S) t).
+Proof. exact roundtrip_blocks. Qed.
+Print Assumptions C17_inverse_roundtrip_blocks.
+
+(* RecordMap: transform(inverse(m), transform(m, t)) is t, for each shape of record map; the constructor and inverse()
+   succeed on these maps *)
+Theorem C17_recordmap_inverse_rows_to_blocks : forall S t, strict_spec S = true -> conforming_rows S t = true ->
+  exists m m' y z, mk_map None (Some S) true = Some m /\ inverse m = Some m' /\
+    transform m t = Ok y /\ transform m' y = Ok z /\ tbl_eqv z (select_cols (row_columns S) t).
+Proof. exact recordmap_inverse_rows_to_blocks. Qed.
+Print Assumptions C17_recordmap_inverse_rows_to_blocks.
+
+Theorem C17_recordmap_inverse_blocks_to_rows : forall S t, strict_spec S = true -> complete_blocks S t = true ->
+  exists m m' y z, mk_map (Some S) None true = Some m /\ inverse m = Some m' /\
+    transform m t = Ok y /\ transform m' y = Ok z /\ tbl_eqv z (select_cols (block_columns S) t).
+Proof. exact recordmap_inverse_blocks_to_rows. Qed.
+Print Assumptions C17_recordmap_inverse_blocks_to_rows.
+
+Theorem C17_recordmap_inverse_blocks_to_blocks : forall A B t,
+  strict_spec A = true -> strict_spec B = true -> same_records A B = true -> complete_blocks A t = true ->
+  exists m m' y z, mk_map (Some A) (Some B) true = Some m /\ inverse m = Some m' /\
+    transform m t = Ok y /\ transform m' y = Ok z /\ tbl_eqv z (select_cols (block_columns A) t).
+Proof. exact recordmap_inverse_blocks_to_blocks. Qed.
+Print Assumptions C17_recordmap_inverse_blocks_to_blocks.
+
+(* composition: self.compose(other) applies other first.  (compose sfx self other; a >> b is b.compose(a).)
+   PARTIAL: under composite_ok (see the header) *)
+Theorem C17_compose_sound_partial_blocks_blocks : forall sfx A B C t c,
+  strict_spec A = true -> strict_spec B = true -> strict_spec C = true ->
+  same_records A B = true -> same_records B C = true -> complete_blocks A t = true ->
+  compose sfx (mkmap (Some B) (Some C) true) (mkmap (Some A) (Some B) true) = CMap c ->
+  composite_ok (Some A) (Some C) c = true ->
+  exists y z zc, transform (mkmap (Some A) (Some B) true) t = Ok y /\ transform (mkmap (Some B) (Some C) true) y = Ok z /\
+    transform c t = Ok zc /\ tbl_eqv zc z.
+Proof. exact compose_sound_blocks_blocks. Qed.
+Print Assumptions C17_compose_sound_partial_blocks_blocks.
+
+Theorem C17_compose_sound_partial_rows_blocks : forall sfx B C t c,
+  strict_spec B = true -> strict_spec C = true -> same_records B C = true -> conforming_rows B t = true ->
+  compose sfx (mkmap (Some B) (Some C) true) (mkmap None (Some B) true) = CMap c ->
+  composite_ok None (Some C) c = true ->
+  exists y z zc, transform (mkmap None (Some B) true) t = Ok y /\ transform (mkmap (Some B) (Some C) true) y = Ok z /\
+    transform c t = Ok zc /\ tbl_eqv zc z.
+Proof. exact compose_sound_rows_blocks. Qed.
+Print Assumptions C17_compose_sound_partial_rows_blocks.
+
+Theorem C17_compose_sound_partial_blocks_rows : forall sfx A B t c,
+  strict_spec A = true -> strict_spec B = true -> same_records A B = true -> complete_blocks A t = true ->
+  compose sfx (mkmap (Some B) None true) (mkmap (Some A) (Some B) true) = CMap c ->
+  composite_ok (Some A) None c = true ->
+  exists y z zc, transform (mkmap (Some A) (Some B) true) t = Ok y /\ transform (mkmap (Some B) None true) y = Ok z /\
+    transform c t = Ok zc /\ Permutation (cols zc) (cols z) /\ tbl_eqv z (select_cols (row_columns B) zc).
+Proof. exact compose_sound_blocks_rows. Qed.
+Print Assumptions C17_compose_sound_partial_blocks_rows.
+
+(* with the value_suffix of the unchanged tree the full statement is false: a composite that takes row records rejects
+   the table the sequence transforms ... *)
+Theorem C17_compose_refuted_rows_in : exists A B t c y z,
+  strict_spec A = true /\ strict_spec B = true /\ same_records A B = true /\ conforming_rows A t = true /\
+  compose " value" (mkmap (Some A) (Some B) true) (mkmap None (Some A) true) = CMap c /\
+  transform (mkmap None (Some A) true) t = Ok y /\ transform (mkmap (Some A) (Some B) true) y = Ok z /\
+  transform c t = Reject.
+Proof. exists ex_A, ex_B, ex_rows, (unwrap (compose " value" m_AB m_rA)),
+              (get_ok (transform m_rA ex_rows)), (get_ok (res_bind (transform m_rA ex_rows) (transform m_AB))).
+  vm_compute. repeat split; reflexivity. Qed.
+Print Assumptions C17_compose_refuted_rows_in.
+
+(* ... and a composite that returns row records names its columns "<name> value" *)
+Theorem C17_compose_refuted_rows_out : exists A B t c y z zc,
+  strict_spec A = true /\ strict_spec B = true /\ same_records A B = true /\ complete_blocks A t = true /\
+  compose " value" (mkmap (Some B) None true) (mkmap (Some A) (Some B) true) = CMap c /\
+  transform (mkmap (Some A) (Some B) true) t = Ok y /\ transform (mkmap (Some B) None true) y = Ok z /\
+  transform c t = Ok zc /\ table_eqvb zc z = false /\ In "x1 value"%string (cols zc).
+Proof. exists ex_A, ex_B, ex_blocks, (unwrap (compose " value" m_Br m_AB)),
+              (get_ok (transform m_AB ex_blocks)), (get_ok (res_bind (transform m_AB ex_blocks) (transform m_Br))),
+              (get_ok (transform (unwrap (compose " value" m_Br m_AB)) ex_blocks)).
+  vm_compute. repeat split; try reflexivity. right. left. reflexivity. Qed.
+Print Assumptions C17_compose_refuted_rows_out.
+
+(* independent of the suffix: a strict blocks -> blocks map may DROP value names (the constructor only asks the output
+   names to be a subset); its composite with a map to rows keeps all of them (known finding
+   C17-compose-keeps-values-a-lossy-map-drops).  This is why the partial theorems assume same_records. *)
+Theorem C17_compose_refuted_lossy : exists A L t c y z zc,
+  strict_spec A = true /\ strict_spec L = true /\ same_records A L = false /\
+  mk_map (Some A) (Some L) true = Some (mkmap (Some A) (Some L) true) /\ complete_blocks A t = true /\
+  compose "" (mkmap (Some L) None true) (mkmap (Some A) (Some L) true) = CMap c /\ composite_ok (Some A) None c = true /\
+  transform (mkmap (Some A) (Some L) true) t = Ok y /\ transform (mkmap (Some L) None true) y = Ok z /\
+  transform c t = Ok zc /\ table_eqvb zc z = false.
+Proof. exists ex_A, ex_L, ex_blocks, (unwrap (compose "" m_Lr m_AL)),
+              (get_ok (transform m_AL ex_blocks)), (get_ok (res_bind (transform m_AL ex_blocks) (transform m_Lr))),
+              (get_ok (transform (unwrap (compose "" m_Lr m_AL)) ex_blocks)).
+  vm_compute. repeat split; reflexivity. Qed.
+Print Assumptions C17_compose_refuted_lossy.
+
+(* the boolean comparison used by the correspondence check decides tbl_eqv *)
+Theorem C17_table_eqvb_decides_tbl_eqv : forall t1 t2, table_eqvb t1 t2 = true <-> tbl_eqv t1 t2.
+Proof. exact table_eqvb_spec. Qed.
+Print Assumptions C17_table_eqvb_decides_tbl_eqv.
+
+(* ---- non-vacuity: the hypotheses hold on concrete, non-trivial instances (Proofs/CDataEx.v): two records with nulls,
+   an extra column, shuffled rows and columns; layouts with 1 and 2 control keys, string and numeric keys *)
+Example C17_ex_strict_specs : strict_spec ex_A = true /\ strict_spec ex_B = true /\ strict_spec ex_C = true.
+Proof. vm_compute. repeat split; reflexivity. Qed.
+Example C17_ex_same_records : same_records ex_A ex_B = true /\ same_records ex_B ex_C = true.
+Proof. vm_compute. split; reflexivity. Qed.
+Example C17_ex_conforming_rows : conforming_rows ex_A ex_rows = true /\ conforming_rows ex_B ex_rows = true.
+Proof. vm_compute. split; reflexivity. Qed.
+Example C17_ex_complete_blocks : complete_blocks ex_A ex_blocks = true.
+Proof. vm_compute. reflexivity. Qed.
+Example C17_ex_transform : transform m_rA ex_rows =
+  Ok (mktable ["id"; "k"; "v1"; "v2"]%string
+        [[n 1 1; s "a"; n 5 2; VNull]; [n 1 1; s "b"; n 3 1; n 5 1]; [n 2 1; s "a"; n 3 2; s "s"]; [n 2 1; s "b"; VNull; n 4 1]]).
+Proof. vm_compute. reflexivity. Qed.
+(* with value_suffix "" (the proposed repair) compose() builds a composite_ok map for each shape, so the partial theorems apply *)
+Example C17_ex_compose_fixed_suffix :
+  (exists c, compose "" m_AB m_rA = CMap c /\ composite_ok None (Some ex_B) c = true) /\
+  (exists c, compose "" m_BC m_AB = CMap c /\ composite_ok (Some ex_A) (Some ex_C) c = true) /\
+  (exists c, compose "" m_Br m_AB = CMap c /\ composite_ok (Some ex_A) None c = true).
+Proof. split; [|split]; eexists; split; vm_compute; reflexivity. Qed.
+(* ... and with " value" it does not, except for blocks -> blocks where the suffixed names stay internal: *)
+Example C17_ex_compose_current_suffix :
+  composite_ok None (Some ex_B) (unwrap (compose " value" m_AB m_rA)) = false /\
+  composite_ok (Some ex_A) None (unwrap (compose " value" m_Br m_AB)) = false /\
+  table_eqvb (get_ok (transform (unwrap (compose " value" m_BC m_AB)) ex_blocks))
+             (get_ok (res_bind (transform m_AB ex_blocks) (transform m_BC))) = true.
+Proof. vm_compute. repeat split; reflexivity. Qed.
